@@ -947,7 +947,11 @@ func (un *Unit) execFunc(fr *Frame, st *State) ([]Val, *State) {
 			}
 		}
 		// loop frame invariant: locations outside the function's modifies set keep their entry values
+		_, noFrame := map[string]string{}["x"]
 		if un.contract != nil {
+			_, noFrame = un.contract.Opts["no-frame"]
+		}
+		if un.contract != nil && !noFrame {
 			for _, c := range sortedKeys(mod) {
 				hv := un.versionName(c, layer)
 				if !un.u.declared[hv] {
